@@ -427,7 +427,8 @@ public:
                     continue;
                 auto scaled_px = src_it[src_x];
                 static_for_each(scaled_px, [&](channel_t& ch) {
-                    ch = ch / bin_width;
+                    // signed division: size_t arithmetic would turn negative channel values into huge keys
+                    ch = static_cast<channel_t>(ch / static_cast<std::ptrdiff_t>(bin_width));
                 });
                 auto key = key_from_pixel<Dimensions...>(scaled_px);
                 if (!setlimits ||
